@@ -51,6 +51,7 @@ type Event struct {
 	Contract string // C02 contract breach description
 	Steps    int64
 	Mut      bool
+	Val      string // set: the value actually passed (resolved from Op.V)
 }
 
 type World struct {
@@ -181,6 +182,30 @@ func applySetter(u *url.Url, which int, v string) {
 		u.SetSearch(v)
 	case 8:
 		u.SetHash(v)
+	}
+}
+
+// getterFor returns the current getter value that corresponds to setter `which`.
+func getterFor(u *url.Url, which int) string {
+	switch which {
+	case 0:
+		return u.Protocol()
+	case 1:
+		return u.Username()
+	case 2:
+		return u.Password()
+	case 3:
+		return u.Host()
+	case 4:
+		return u.Hostname()
+	case 5:
+		return u.Port()
+	case 6:
+		return u.Pathname()
+	case 7:
+		return u.Search()
+	default:
+		return u.Hash()
 	}
 }
 
@@ -327,7 +352,16 @@ func (w *World) exec(i int, op Op) (ev Event) {
 		if op.W%9 == 7 {
 			uh.QW = 0
 		}
-		applySetter(uh.U, op.W%9, string(op.A))
+		ev.Val = string(op.A)
+		switch op.V {
+		case "own":
+			ev.Val = getterFor(uh.U, op.W%9) + string(op.A)
+		case "peer":
+			if ph := w.U[op.S]; ph != nil {
+				ev.Val = getterFor(ph.U, op.W%9) + string(op.A)
+			}
+		}
+		applySetter(uh.U, op.W%9, ev.Val)
 	case "getsp":
 		uh := w.U[op.H]
 		if uh == nil || w.S[op.D] != nil {
@@ -608,6 +642,9 @@ func runWorld(plan *Plan, mk func() Checker, kf *KnownFindings, keepLog bool) (r
 			line := fmt.Sprintf("%3d  %-60s", i, op.String())
 			if ev.Err != "" {
 				line += " err=" + ev.Err
+			}
+			if op.V != "" {
+				line += " value=" + q(ev.Val)
 			}
 			if ev.Target >= 0 {
 				line += " -> " + q(w.Cur[ev.Target].Href)
